@@ -9,14 +9,15 @@
    value.  Definitions and proofs of this file are used by
    Props/Properties_C19.v (C19_c_denotes_partial). *)
 From Coq Require Import ZArith List Bool Arith Lia.
-From VV Require Import Base.F64 Mep.Genome Lang.LangBase Gen.Templates Lang.LangDefs Lang.LangProofs
-  Lang.SynDefs Lang.SynProofs.
+From VV Require Import Base.F64 Base.Values Interp.Strategy Cxx.CxxMini Gen.Prims Mep.Genome
+  Prims.RealDefs Prims.RealProofs Interp.MachineDefs.
+From VV Require Import Lang.LangBase Gen.Templates Lang.LangDefs Lang.LangProofs Lang.SynDefs Lang.SynProofs.
 Import ListNotations.
 Local Open Scope Z_scope.
 
 (* a double, the int of an integer literal / integer arithmetic, or the truth
    value of a comparison *)
-Inductive cval := CD (x : f64) | CI (z : Z) | CB (b : bool).
+Inductive cval := CD (x : f64) | CI (z : Z) | CB (b : bool) | CS (s : bytes).
 
 (* an integer literal of the C grammar: digits only (a floating literal has a
    '.' or an exponent and is read by strtod) *)
@@ -49,7 +50,7 @@ Definition cmp2 (cd : f64 -> f64 -> bool) (a b : cval) : option cval :=
   | _, _ => None
   end.
 Definition to_double (a : cval) : option f64 :=
-  match a with CD x => Some x | CI z => Some (F64.of_Z z) | CB _ => None end.
+  match a with CD x => Some x | CI z => Some (F64.of_Z z) | _ => None end.
 
 Definition N_fabs : bytes := [102; 97; 98; 115].
 Definition N_sqrt : bytes := [115; 113; 114; 116].
@@ -57,22 +58,35 @@ Definition N_floor : bytes := [102; 108; 111; 111; 114].
 Definition N_fmod : bytes := [102; 109; 111; 100].
 Definition N_fmax : bytes := [102; 109; 97; 120].
 Definition N_fmin : bytes := [102; 109; 105; 110].
+Definition N_sin : bytes := [115; 105; 110].
+Definition N_cos : bytes := [99; 111; 115].
+Definition N_log : bytes := [108; 111; 103].
+Definition N_exp : bytes := [101; 120; 112].
+Definition N_pow : bytes := [112; 111; 119].
+Definition N_strlen : bytes := [115; 116; 114; 108; 101; 110].
 Definition N_eps : bytes := [68; 66; 76; 95; 69; 80; 83; 73; 76; 79; 78].      (* DBL_EPSILON *)
 Definition dbl_eps : f64 := F64.of_bits 4372995238176751616.                  (* 2^-52 *)
 
 Section Denote.
-Variable lit : bytes -> option f64.     (* strtod on a numeric literal *)
-Variable rho : bytes -> option f64.     (* the parameters of the C function *)
+Variable lm : libm.                          (* sin cos log exp of the C library: the SAME oracle the interpreter uses *)
+Variable c_pow : f64 -> f64 -> f64.          (* pow of the C library *)
+Variable lit : bytes -> option f64.          (* strtod on a floating literal *)
+Variable rho : bytes -> option cval.         (* the parameters of the C function *)
 
 Definition un_fun (fn : bytes) : option (f64 -> f64) :=
   if bytes_eqb fn N_fabs then Some F64.abs
   else if bytes_eqb fn N_sqrt then Some F64.sqrt
   else if bytes_eqb fn N_floor then Some F64.floor
+  else if bytes_eqb fn N_sin then Some (l_sin lm)
+  else if bytes_eqb fn N_cos then Some (l_cos lm)
+  else if bytes_eqb fn N_log then Some (l_log lm)
+  else if bytes_eqb fn N_exp then Some (l_exp lm)
   else None.
 Definition bin_fun (fn : bytes) : option (f64 -> f64 -> f64) :=
   if bytes_eqb fn N_fmod then Some F64.fmod
   else if bytes_eqb fn N_fmax then Some F64.fmax
   else if bytes_eqb fn N_fmin then Some F64.fmin
+  else if bytes_eqb fn N_pow then Some c_pow
   else None.
 
 Definition arith (op : tok) : option (cval -> cval -> option cval) :=
@@ -88,6 +102,13 @@ Definition compare (op : tok) : option (f64 -> f64 -> bool) :=
   else if tok_eqb op (p2 62 61) then Some F64.geb
   else None.
 
+(* the characters of a string literal (a backslash quotes the next byte) *)
+Fixpoint unescape (s : bytes) : bytes :=
+  match s with
+  | c :: r => if c =? 92 then match r with d :: r' => d :: unescape r' | [] => [] end else c :: unescape r
+  | [] => []
+  end.
+
 (* [h k]: the value of placeholder k *)
 Fixpoint denote (h : nat -> option cval) (e : cexpr) : option cval :=
   match e with
@@ -98,13 +119,16 @@ Fixpoint denote (h : nat -> option cval) (e : cexpr) : option cval :=
            | None =>
                match lit w with
                | Some v => Some (CD v)
-               | None => match rho w with Some v => Some (CD v) | None => None end
+               | None => rho w
                end
            end
-  | EStr _ => None
+  | EStr s => Some (CS (if const_str_escapes then unescape s else s))
   | EHole k => h k
   | ECall0 _ => None
   | ECall (EAtom fn) a =>
+      if bytes_eqb fn N_strlen then
+        match denote h a with Some (CS s) => Some (CI (Z.of_nat (length s))) | _ => None end
+      else
       match un_fun fn with
       | Some g1 => match denote h a with
                    | Some v => match to_double v with Some x => Some (CD (g1 x)) | None => None end
@@ -173,94 +197,159 @@ Fixpoint denote (h : nat -> option cval) (e : cexpr) : option cval :=
 
 Definition no_holes : nat -> option cval := fun _ => None.
 
-(* ------------------ reference semantics of the real-valued fragment *)
-Definition guard (r : f64) : option f64 := if F64.is_finite r then Some r else None.
-Definition two : f64 := F64.of_Z 2.
-Definition issmall (x : f64) : bool := F64.ltb (F64.abs x) (F64.mul two dbl_eps).
+(* a value of the interpreter and the C value it corresponds to: a double, the
+   int 0 / 1 of a comparison, a string *)
+Definition crel (v : value) (c : cval) : Prop :=
+  match v, c with
+  | VDouble x, CD y => x = y
+  | VInt z, CB b => z = (if b then 1 else 0)
+  | VString s, CS t => s = t
+  | _, _ => False
+  end.
 
-Definition arg (vs : list (option f64)) (i : nat) : option f64 := nth i vs None.
-
-Definition strict2 (op : f64 -> f64 -> f64) (vs : list (option f64)) : option f64 :=
-  match arg vs 0, arg vs 1 with Some x, Some y => guard (op x y) | _, _ => None end.
-
-Definition N (s : list Z) := s.
-Definition frag_op (name : bytes) (vs : list (option f64)) : option f64 :=
-  if bytes_eqb name [70; 65; 68; 68] then strict2 F64.add vs                              (* FADD *)
-  else if bytes_eqb name [70; 83; 85; 66] then strict2 F64.sub vs                         (* FSUB *)
-  else if bytes_eqb name [70; 77; 85; 76] then strict2 F64.mul vs                         (* FMUL *)
-  else if bytes_eqb name [70; 68; 73; 86] then strict2 F64.div vs                         (* FDIV *)
-  else if bytes_eqb name [70; 77; 79; 68] then strict2 F64.fmod vs                        (* FMOD *)
-  else if bytes_eqb name [70; 77; 65; 88] then strict2 F64.fmax vs                        (* FMAX *)
-  else if bytes_eqb name [70; 73; 68; 73; 86] then strict2 (fun x y => F64.floor (F64.div x y)) vs   (* FIDIV *)
-  else if bytes_eqb name [70; 65; 66; 83] then                                            (* FABS *)
-    match arg vs 0 with Some x => Some (F64.abs x) | None => None end
-  else if bytes_eqb name [70; 83; 81; 82; 84] then                                        (* FSQRT *)
-    match arg vs 0 with Some x => if F64.ltb x F64.zero then None else Some (F64.sqrt x) | None => None end
-  else if bytes_eqb name [70; 73; 70; 76] then                                            (* FIFL *)
-    match arg vs 0, arg vs 1 with
-    | Some x, Some y => if F64.ltb x y then arg vs 2 else arg vs 3
-    | _, _ => None
-    end
-  else if bytes_eqb name [70; 73; 70; 69] then                                            (* FIFE *)
-    match arg vs 0, arg vs 1 with
-    | Some x, Some y => if issmall (F64.sub x y) then arg vs 2 else arg vs 3
-    | _, _ => None
-    end
-  else if bytes_eqb name [70; 73; 70; 90] then                                            (* FIFZ *)
-    match arg vs 0 with
-    | Some x => if issmall x then arg vs 1 else arg vs 2
-    | None => None
-    end
-  else None.
-
+Variable vars : varenv.       (* what the interpreter reads for its input variables *)
 Variable env : lang_env.
 
-(* value of a leaf: a constant<double>, or a variable bound by the caller *)
-Definition leaf_val (s : sym) : option f64 :=
-  match env (s_opcode s) with
-  | Some (SConstD v) => Some v
-  | Some (SClass c) => if tc_terminal c then rho (tc_name c) else None
-  | _ => None
-  end.
+(* the primitives of the fragment: the class (how it prints, Gen/Templates.v)
+   and the body (what it computes, Gen/Prims.v), both regenerated from real.h *)
+Definition frag_table : list (tclass * list stmt) :=
+  [(tc_real_add, real_add_body); (tc_real_sub, real_sub_body); (tc_real_mul, real_mul_body);
+   (tc_real_div, real_div_body); (tc_real_mod, real_mod_body); (tc_real_max, real_max_body);
+   (tc_real_idiv, real_idiv_body); (tc_real_abs, real_abs_body); (tc_real_sqrt, real_sqrt_body);
+   (tc_real_sin, real_sin_body); (tc_real_cos, real_cos_body); (tc_real_ln, real_ln_body);
+   (tc_real_gt, real_gt_body); (tc_real_lt, real_lt_body); (tc_real_length, real_length_body);
+   (tc_real_ifl, real_ifl_body); (tc_real_ife, real_ife_body); (tc_real_ifz, real_ifz_body);
+   (tc_real_aq, real_aq_body)].
 
-Fixpoint eval_frag (t : tree) : option f64 :=
-  match t with
-  | Node s par kids =>
-      match kids with
-      | [] => leaf_val s
-      | _ => match env (s_opcode s) with
-             | Some (SClass c) => frag_op (tc_name c) (map eval_frag kids)
-             | _ => None
-             end
-      end
-  end.
+(* a leaf is EXACT when reading its printed text back (strtod for a literal,
+   the parameter for a variable, the characters of a string literal) gives the
+   value the interpreter yields for it *)
+Definition exact (t : tree) : Prop :=
+  forall v, den vars t = Val v -> v <> VVoid ->
+  exists c, denote no_holes (ast env FC t) = Some c /\ crel v c.
 
-Definition frag_classes : list tclass :=
-  [tc_real_add; tc_real_sub; tc_real_mul; tc_real_div; tc_real_mod; tc_real_max; tc_real_idiv;
-   tc_real_abs; tc_real_sqrt; tc_real_ifl; tc_real_ife; tc_real_ifz].
-
-(* programs of the fragment; a leaf is EXACT when reading its printed text back
-   (strtod for a literal, the parameter for a variable) gives its value --
-   "constants print exactly" *)
 Inductive frag : tree -> Prop :=
-| F_leaf : forall s par,
-    (forall x, leaf_val s = Some x -> denote no_holes (ast env FC (Node s par [])) = Some (CD x)) ->
-    frag (Node s par [])
-| F_op : forall s par kids c,
-    env (s_opcode s) = Some (SClass c) -> In c frag_classes ->
+| F_leaf : forall s par, exact (Node s par []) -> frag (Node s par [])
+| F_op : forall s par kids c body,
+    env (s_opcode s) = Some (SClass c) -> In (c, body) frag_table ->
+    s_strat s = strategy_of lm body ->
     arity s = tc_arity c -> length kids = tc_arity c ->
-    Forall frag kids -> frag (Node s par kids).
+    Forall frag kids -> frag (Node s par kids)
+(* FIFB compares with <= where the interpreter uses !isless / !isgreater: the
+   same for the values a program computes from finite inputs (C13), different
+   for a NaN -- the compared values must not be NaN *)
+| F_ifb : forall s par k0 k1 k2 k3 k4,
+    env (s_opcode s) = Some (SClass tc_real_ifb) ->
+    s_strat s = strategy_of lm real_ifb_body -> arity s = 5%nat ->
+    Forall frag [k0; k1; k2; k3; k4] ->
+    (forall k x, In k [k0; k1; k2] -> den vars k = Val (VDouble x) -> F64.is_nan x = false) ->
+    frag (Node s par [k0; k1; k2; k3; k4]).
 
 End Denote.
 
 (* ------------------------------------------------------------ the proof *)
 Section Proof.
+Variable lm : libm.
+Variable c_pow : f64 -> f64 -> f64.
 Variable lit : bytes -> option f64.
-Variable rho : bytes -> option f64.
+Variable rho : bytes -> option cval.
+Variable vars : varenv.
 Variable env : lang_env.
 
 Local Opaque F64.add F64.sub F64.mul F64.div F64.fmod F64.fmax F64.fmin F64.floor F64.abs F64.sqrt
   F64.ltb F64.gtb F64.leb F64.geb F64.neg F64.is_finite F64.of_bits F64.of_Z.
+
+(* ---- from C01's denotation to C13's closed forms *)
+Lemma apply_strat_ext : forall s par a b, (forall i, a i = b i) ->
+  apply_strat vars s par a = apply_strat vars s par b.
+Proof.
+  induction s as [o|i k IH|k IH|i k IH]; intros par a b E; cbn [apply_strat].
+  - reflexivity.
+  - rewrite <- E. destruct (a i) as [[v| |]|]; auto.
+  - auto.
+  - destruct (vars i); auto.
+Qed.
+
+Lemma den_node : forall s par kids,
+  den vars (Node s par kids) = apply_strat vars (s_strat s) par (den_args vars kids).
+Proof.
+  intros s par kids. cbn [den]. apply apply_strat_ext.
+  intro i. unfold den_args. revert i. induction kids as [|k ks IH]; intros [|i]; cbn; auto.
+Qed.
+
+(* the argument values handed to the closed forms: the value of an argument
+   that has one, undefined for the others (which a run that ends with a value
+   never looked at) *)
+Definition val_or_void (o : outcome) : value := match o with Val v => v | _ => VVoid end.
+Definition arg_vals (kids : list tree) : list value := map (fun k => val_or_void (den vars k)) kids.
+
+Lemma bridge : forall s par arg l v,
+  (forall i x, arg i = Some (Val x) -> nth_error l i = Some x) ->
+  apply_strat vars s par arg = Val v ->
+  run_stub s (arg_stub (Some par) vars l) = Val v.
+Proof.
+  induction s as [o|i k IH|k IH|i k IH]; intros par arg l v Hl H; cbn [apply_strat] in H; cbn [run_stub].
+  - exact H.
+  - destruct (arg i) as [[x| |]|] eqn:E; try discriminate.
+    cbn [arg_stub s_arg]. rewrite (Hl _ _ E). eapply IH; eauto.
+  - cbn [arg_stub s_par]. eapply IH; eauto.
+  - cbn [arg_stub s_var]. destruct (vars i); [eapply IH; eauto|discriminate].
+Qed.
+
+Lemma den_run_body : forall s par kids body v,
+  s_strat s = strategy_of lm body ->
+  den vars (Node s par kids) = Val v ->
+  run_body_s lm body (Some par) vars (arg_vals kids) = Val v.
+Proof.
+  intros s par kids body v Hs H. rewrite den_node, Hs in H. unfold run_body_s.
+  eapply bridge; [|exact H].
+  intros i x Hi. unfold den_args in Hi. unfold arg_vals. rewrite nth_error_map.
+  destruct (nth_error kids i); cbn in *; [|discriminate]. inversion Hi as [E]. rewrite E. reflexivity.
+Qed.
+
+Lemma two_eps_c : F64.mul (F64.of_Z 2) dbl_eps = two_eps.
+Proof. Transparent F64.mul F64.of_Z F64.of_bits. apply Flocq.IEEE754.BinarySingleNaN.B2SF_inj. vm_compute. reflexivity. Qed.
+
+(* comparisons of non-NaN doubles *)
+Local Transparent F64.leb F64.ltb F64.gtb F64.geb F64.fmin F64.fmax.
+Lemma cmp_some : forall a b, F64.is_nan a = false -> F64.is_nan b = false -> F64.cmp a b <> None.
+Proof.
+  intros a b Ha Hb. unfold F64.cmp.
+  destruct a as [sa|sa| |sa ma ea pa], b as [sb|sb| |sb mb eb pb]; try discriminate;
+    cbn; repeat match goal with |- context [if ?c then _ else _] => destruct c
+                          | |- context [match ?c with _ => _ end] => destruct c end; discriminate.
+Qed.
+
+Lemma leb_negb_ltb : forall a b, F64.is_nan a = false -> F64.is_nan b = false ->
+  F64.leb a b = negb (F64.ltb b a).
+Proof.
+  intros a b Ha Hb. pose proof (cmp_some a b Ha Hb) as Hc.
+  unfold F64.leb, F64.ltb, F64.cmp in *.
+  rewrite (Flocq.IEEE754.BinarySingleNaN.Bcompare_swap _ _ a b).
+  destruct (Flocq.IEEE754.BinarySingleNaN.Bcompare a b) as [[| |]|]; try reflexivity. congruence.
+Qed.
+
+Lemma fmin_nonan : forall y z, F64.is_nan y = false -> F64.is_nan z = false -> F64.is_nan (F64.fmin y z) = false.
+Proof. intros y z Hy Hz. unfold F64.fmin. destruct (F64.leb y z || F64.is_nan z); assumption. Qed.
+Lemma fmax_nonan : forall y z, F64.is_nan y = false -> F64.is_nan z = false -> F64.is_nan (F64.fmax y z) = false.
+Proof. intros y z Hy Hz. unfold F64.fmax. destruct (F64.geb y z || F64.is_nan z); assumption. Qed.
+
+Lemma inside_c : forall x y z, F64.is_nan x = false -> F64.is_nan y = false -> F64.is_nan z = false ->
+  F64.leb (F64.fmin y z) x && F64.leb x (F64.fmax y z) = negb (ifb_outside x y z).
+Proof.
+  intros x y z Hx Hy Hz. unfold ifb_outside, F64.gtb.
+  rewrite (leb_negb_ltb _ _ (fmin_nonan y z Hy Hz) Hx), (leb_negb_ltb _ _ Hx (fmax_nonan y z Hy Hz)).
+  rewrite negb_orb. reflexivity.
+Qed.
+
+(* strtod on the two floating literals of the AQ template, and pow on squares
+   (used for AQ only) *)
+Hypothesis lit_1_0 : lit [49; 46; 48] = Some one.
+Hypothesis lit_2_0 : lit [50; 46; 48] = Some (F64.of_bits 4611686018427387904).
+Hypothesis pow_square : forall y, c_pow y (F64.of_bits 4611686018427387904) = F64.mul y y.
+
+Local Opaque F64.add F64.sub F64.mul F64.div F64.fmod F64.fmax F64.fmin F64.floor F64.abs F64.sqrt
+  F64.ltb F64.gtb F64.leb F64.geb F64.neg F64.is_finite F64.of_bits F64.of_Z F64.is_nan.
 
 Lemma sym_text_fun : forall s par c,
   env (s_opcode s) = Some (SClass c) -> tc_terminal c = false -> arity s <> O ->
@@ -270,60 +359,127 @@ Proof.
   unfold arity in Ha. unfold is_terminal. destruct (s_argcats s); [exfalso; apply Ha; reflexivity|]. rewrite Ht. reflexivity.
 Qed.
 
-Lemma eval_frag_node : forall s par k ks c,
-  env (s_opcode s) = Some (SClass c) ->
-  eval_frag rho env (Node s par (k :: ks)) = frag_op (tc_name c) (map (eval_frag rho env) (k :: ks)).
-Proof. intros s par k ks c He. cbn [eval_frag]. rewrite He. reflexivity. Qed.
+Lemma issmall_c : forall x, F64.ltb (F64.abs x) (F64.mul (F64.of_Z 2) dbl_eps) = issmall x.
+Proof. intro x. rewrite two_eps_c. reflexivity. Qed.
 
-Lemma guard_some : forall x r, guard x = Some r -> r = x.
-Proof. intros x r H. unfold guard in H. destruct (F64.is_finite x); inversion H; reflexivity. Qed.
+Notation DEN := (denote lm c_pow lit rho no_holes).
 
-Ltac kid_val k :=
-  let E := fresh "E" in
-  destruct (eval_frag rho env k) eqn:E;
-  [match goal with H : forall r, eval_frag rho env k = Some r -> _ |- _ => rewrite (H _ E) end|].
-
-Theorem c_denotes_frag : forall t, frag lit rho env t ->
-  forall r, eval_frag rho env t = Some r -> denote lit rho no_holes (ast env FC t) = Some (CD r).
+(* what the induction hypothesis gives for an argument whose value is known *)
+Lemma kid_double : forall k x, exact lm c_pow lit rho vars env k -> den vars k = Val (VDouble x) ->
+  DEN (ast env FC k) = Some (CD x).
 Proof.
-  induction t as [s par kids IHk] using tree_ind2. intros Hf r He.
-  inversion Hf as [s0 par0 Hleaf|s0 par0 kids0 c Henv Hin Har Hlen Hkids]; subst.
-  - apply Hleaf. exact He.
-  - assert (IH : Forall (fun k => forall r, eval_frag rho env k = Some r ->
-                          denote lit rho no_holes (ast env FC k) = Some (CD r)) kids).
-    { clear - IHk Hkids. induction kids as [|k ks IH]; constructor.
-      - inversion IHk; subst. inversion Hkids; subst. auto.
-      - inversion IHk; subst. inversion Hkids; subst. auto. }
-    clear IHk Hkids Hf.
-    cbn [In frag_classes] in Hin.
-    repeat (destruct Hin as [Hin|Hin]; [subst c|]); try contradiction.
+  intros k x Hk E. destruct (Hk _ E ltac:(discriminate)) as [c [Hc Hr]].
+  destruct c; cbn in Hr; try contradiction. subst. exact Hc.
+Qed.
+Lemma kid_string : forall k x, exact lm c_pow lit rho vars env k -> den vars k = Val (VString x) ->
+  DEN (ast env FC k) = Some (CS x).
+Proof.
+  intros k x Hk E. destruct (Hk _ E ltac:(discriminate)) as [c [Hc Hr]].
+  destruct c; cbn in Hr; try contradiction. subst. exact Hc.
+Qed.
+
+Ltac strict_args Hden Hnv :=
+  repeat match type of Hden with
+  | context [match val_or_void (den vars ?k) with _ => _ end] =>
+      let E := fresh "E" in let w := fresh "w" in
+      destruct (den vars k) as [w| |] eqn:E; cbn [val_or_void] in Hden;
+      [destruct w; cbn in Hden|..];
+      try discriminate Hden; try (exfalso; apply Hnv; inversion Hden; reflexivity)
+  end.
+Ltac kid_facts :=
+  repeat match goal with
+  | Hk : exact _ _ _ _ _ _ ?k, E : den vars ?k = Val (VDouble ?x) |- _ =>
+      pose proof (kid_double k x Hk E); clear E
+  | Hk : exact _ _ _ _ _ _ ?k, E : den vars ?k = Val (VString ?x) |- _ =>
+      pose proof (kid_string k x Hk E); clear E
+  end.
+Ltac selected_branch Hv Hnv :=
+  match type of Hv with
+  | val_or_void (den vars ?k) = ?v =>
+      let E := fresh "E" in
+      destruct (den vars k) eqn:E; cbn [val_or_void] in Hv; subst v;
+      [match goal with Hk : exact _ _ _ _ _ _ k |- _ => exact (Hk _ E Hnv) end
+      |exfalso; apply Hnv; reflexivity|exfalso; apply Hnv; reflexivity]
+  end.
+
+Theorem c_denotes_den : forall t, frag lm c_pow lit rho vars env t -> exact lm c_pow lit rho vars env t.
+Proof.
+  induction t as [s par kids IHk] using tree_ind2. intros Hf.
+  assert (IHall : forall ks, Forall (frag lm c_pow lit rho vars env) ks -> ks = kids ->
+                             Forall (exact lm c_pow lit rho vars env) kids).
+  { intros ks Hks ->. clear - IHk Hks. induction kids as [|k ks IH]; constructor.
+    - inversion IHk; subst. inversion Hks; subst. auto.
+    - inversion IHk; subst. inversion Hks; subst. auto. }
+  inversion Hf as [s0 par0 Hleaf|s0 par0 kids0 c body Henv Hin Hstrat Har Hlen Hkids
+                  |s0 par0 k0 k1 k2 k3 k4 Henv Hstrat Har Hkids Hnan]; subst; [exact Hleaf| |].
+  - pose proof (IHall _ Hkids eq_refl) as IH. clear IHk IHall Hkids Hf.
+    intros v Hden Hnv. apply (den_run_body _ _ _ _ _ Hstrat) in Hden.
+    cbn [In frag_table] in Hin.
+    repeat (destruct Hin as [Hin|Hin]; [inversion Hin; subst c body; clear Hin|]); try contradiction.
     all: cbn [tc_arity tc_real_add tc_real_sub tc_real_mul tc_real_div tc_real_mod tc_real_max tc_real_idiv
-              tc_real_abs tc_real_sqrt tc_real_ifl tc_real_ife tc_real_ifz] in Har, Hlen.
+              tc_real_abs tc_real_sqrt tc_real_sin tc_real_cos tc_real_ln tc_real_gt tc_real_lt tc_real_length
+              tc_real_ifl tc_real_ife tc_real_ifz tc_real_aq] in Har, Hlen.
     all: repeat (destruct kids as [|?k kids]; [discriminate Hlen|]).
     all: destruct kids; [|discriminate Hlen].
     all: repeat match goal with H : Forall _ (_ :: _) |- _ => inversion H; clear H; subst end.
     all: rewrite ast_function by discriminate.
     all: erewrite sym_text_fun by (try eassumption; try reflexivity; rewrite Har; discriminate).
     all: rewrite Har.
-    all: erewrite eval_frag_node in He by eassumption.
-    all: cbn [tc_name tc_real_add tc_real_sub tc_real_mul tc_real_div tc_real_mod tc_real_max tc_real_idiv
-              tc_real_abs tc_real_sqrt tc_real_ifl tc_real_ife tc_real_ifz map] in He.
     all: match goal with |- context [tmpl_ast ?g ?n ?tm] =>
            let a := eval vm_compute in (tmpl_ast g n tm) in
            replace (tmpl_ast g n tm) with a by (vm_compute; reflexivity) end.
-    all: cbn.
-    all: repeat match goal with
-         | Hk : forall r, eval_frag rho env ?k = Some r -> _ |- _ =>
-             let E := fresh "E" in
-             destruct (eval_frag rho env k) eqn:E; [rewrite (Hk _ eq_refl)|]; clear Hk
-         end.
-    all: cbn in He; cbn; unfold guard, issmall, two in He.
-    all: try discriminate He.
-    all: repeat match type of He with
+    all: cbn [arg_vals map] in Hden.
+    all: first [rewrite add_run in Hden | rewrite sub_run in Hden | rewrite mul_run in Hden | rewrite div_run in Hden
+               | rewrite mod_run in Hden | rewrite max_run in Hden | rewrite idiv_run in Hden | rewrite abs_run in Hden
+               | rewrite sqrt_run in Hden | rewrite sin_run in Hden | rewrite cos_run in Hden | rewrite ln_run in Hden
+               | rewrite gt_run in Hden | rewrite lt_run in Hden | rewrite length_run in Hden
+               | rewrite ifl_run in Hden | rewrite ife_run in Hden | rewrite ifz_run in Hden | rewrite aq_run in Hden].
+    all: unfold bin_strict, un_strict, if2_val, ifz_val, length_val, sel, ifl_test, ife_test, idiv_op, sqrt_val, aq_op in Hden.
+    all: strict_args Hden Hnv.
+    all: kid_facts.
+    all: cbn [length csubst map nth].
+    all: cbn -[issmall guard b2i].
+    all: repeat match goal with H : DEN _ = Some _ |- _ => rewrite H; clear H end.
+    all: cbn -[issmall guard b2i]; rewrite ?issmall_c, ?lit_1_0, ?lit_2_0; cbn -[issmall guard b2i]; rewrite ?pow_square.
+    all: unfold guard in Hden.
+    all: repeat match type of Hden with
          | context [if ?b then _ else _] => destruct b eqn:?
          end.
-    all: try discriminate He.
-    all: try (inversion He; subst; reflexivity).
+    all: inversion Hden as [Hv]; clear Hden.
+    all: try (exfalso; apply Hnv; symmetry; exact Hv).
+    all: try selected_branch Hv Hnv.
+    all: subst v; eexists; (split; [reflexivity|]); cbn; try reflexivity.
+    all: unfold b2i; match goal with |- context [if ?b then _ else _] => destruct b; reflexivity end.
+  - (* FIFB *)
+    pose proof (IHall _ Hkids eq_refl) as IH. clear IHk IHall Hkids Hf.
+    intros v Hden Hnv. apply (den_run_body _ _ _ _ _ Hstrat) in Hden.
+    repeat match goal with H : Forall _ (_ :: _) |- _ => inversion H; clear H; subst end.
+    rewrite ast_function by discriminate.
+    erewrite sym_text_fun by (try eassumption; try reflexivity; rewrite Har; discriminate).
+    rewrite Har.
+    match goal with |- context [tmpl_ast ?g ?n ?tm] =>
+      let a := eval vm_compute in (tmpl_ast g n tm) in
+      replace (tmpl_ast g n tm) with a by (vm_compute; reflexivity) end.
+    cbn [arg_vals map] in Hden. rewrite ifb_run in Hden. unfold ifb_val, sel in Hden.
+    strict_args Hden Hnv.
+    assert (N0 : F64.is_nan f = false) by (eapply (Hnan k0); [cbn; tauto|eassumption]).
+    assert (N1 : F64.is_nan f0 = false) by (eapply (Hnan k1); [cbn; tauto|eassumption]).
+    assert (N2 : F64.is_nan f1 = false) by (eapply (Hnan k2); [cbn; tauto|eassumption]).
+    kid_facts.
+    cbn [length csubst map nth]. cbn -[ifb_outside].
+    repeat match goal with H : DEN _ = Some _ |- _ => rewrite H; clear H end.
+    cbn -[ifb_outside].
+    pose proof (inside_c f f0 f1 N0 N1 N2) as HI.
+    destruct (ifb_outside f f0 f1) eqn:O; cbn [negb] in HI;
+      destruct (F64.leb (F64.fmin f0 f1) f) eqn:L1; destruct (F64.leb f (F64.fmax f0 f1)) eqn:L2;
+      cbn [andb] in HI; try discriminate HI.
+    all: inversion Hden as [Hv]; clear Hden.
+    all: selected_branch Hv Hnv.
 Qed.
+
+(* for programs whose value is a double *)
+Corollary c_denotes_double : forall t r, frag lm c_pow lit rho vars env t ->
+  den vars t = Val (VDouble r) -> DEN (ast env FC t) = Some (CD r).
+Proof. intros t r Hf Hd. apply kid_double; [apply c_denotes_den; exact Hf|exact Hd]. Qed.
 
 End Proof.
